@@ -22,6 +22,8 @@ func init() {
 
 func runC18(p *eng.Prog, r *eng.Report, tier string) {
 	c := &cx{p, r, tier}
+	r18RejoinAlwaysAsks(c, "C18.33")
+	r18HandOffComparesWholeNames(c, "C18.32")
 	r17JoinOptionsPerCall(c, "C18.29")
 	// C18.28 (= C14.1, imported): presences reach the MUC client through the multiplexer's lookup, which is
 	// recomputed on every call (a memo of "no handler" from before the client was registered hides it for good)
